@@ -42,6 +42,8 @@ fn report(case: &Case, out: exec::C27Outcome, sample: bool, exhaustive: bool) ->
         add("sched.timer_fires", st.timer_fires);
         add("sched.spurious_polls", st.spurious_polls);
         add("sched.late_wakes_after_completion", st.late_wakes);
+        add("sched.stale_wakes_ignored", st.stale_wakes);
+        add("sched.strict_waker_runs", case.schedule.strict_wakers as u64);
         add("sched.root_polls", st.polls_root);
         add("sched.futures_created", st.futures_created);
         add("sched.streams_created", st.streams_created);
@@ -169,6 +171,7 @@ impl Property for C27 {
                     // swarm: all-ready async runs, sparse and dense pending
                     pending_permille: *sr.pick(&[0, 20, 100, 600, 600, 900]),
                     spurious_permille: *sr.pick(&[0, 0, 50, 200]),
+                    strict_wakers: sr.chance(1, 3),
                     ..Default::default()
                 };
                 let out = exec::check_c27(&case, &parsed, false);
